@@ -238,7 +238,7 @@ def extract(units, hdr=".*", inst="", overlays=(), extra_args=None, jobs=None, n
 class Fn:
     """One function body with its CFG."""
     __slots__ = ("d", "name", "id", "file", "line", "cls", "kind", "blocks", "entry", "exit",
-                 "_preds", "_dom", "_pdom", "_reach")
+                 "_preds", "_dom", "_pdom", "_reach", "_infeas")
 
     def __init__(self, d):
         self.d = d
@@ -255,6 +255,7 @@ class Fn:
         self._dom = None
         self._pdom = None
         self._reach = None
+        self._infeas = None
 
     def __repr__(self):
         return "<Fn %s %s:%d>" % (self.id, self.file, self.line)
@@ -279,12 +280,13 @@ class Fn:
         if self._reach is None:
             seen = set()
             st = [self.entry]
+            infeas = self.infeasible_edges()
             while st:
                 b = st.pop()
                 if b in seen or b not in self.blocks:
                     continue
                 seen.add(b)
-                st.extend(self.succs(b))
+                st.extend(s for s in self.succs(b) if (b, s) not in infeas)
             self._reach = seen
         return self._reach
 
@@ -323,6 +325,7 @@ class Fn:
             b0, i0 = start[0], start[1] + 1
         seen = set()
         stack = [(b0, i0, (b0,))]
+        infeas = self.infeasible_edges()
         while stack:
             b, i, path = stack.pop()
             if b in avoid_blocks:
@@ -349,7 +352,7 @@ class Fn:
                     return list(path)
                 continue
             for s in self.succs(b):
-                if s in seen or (b, s) in avoid_edges:
+                if s in seen or (b, s) in avoid_edges or (b, s) in infeas:
                     continue
                 seen.add(s)
                 stack.append((s, 0, path + (s,)))
@@ -365,6 +368,47 @@ class Fn:
         if a[0] == b[0]:
             return a[1] <= b[1]
         return a[0] in self.dominators().get(b[0], ())
+
+    def infeasible_edges(self):
+        """Edges that constant folding of the branch condition rules out: conditions built only from
+        literals / string literals under !, &&, || (e.g. the always-failing SimTK_ERRCHK(!"message") idiom
+        and the `do { } while(false)` of the check macros)."""
+        if getattr(self, "_infeas", None) is not None:
+            return self._infeas
+        res = set()
+
+        def val(x):
+            if not isinstance(x, list) or not x:
+                return None
+            if x[0] == "str":
+                return True
+            if x[0] == "lit":
+                if x[1] in ("true",):
+                    return True
+                if x[1] in ("false", "0", "null"):
+                    return False
+                try:
+                    return float(x[1]) != 0
+                except ValueError:
+                    return None
+            if x[0] == "un" and x[1] == "!":
+                v = val(x[2])
+                return None if v is None else (not v)
+            if x[0] == "cast":
+                return val(x[2])
+            return None
+        for b, blk in self.blocks.items():
+            t = blk.get("term")
+            if not t or "cond" not in t or t["k"] not in ("if", "while", "do", "for", "cond", "||", "&&"):
+                continue
+            v = val(t["cond"])
+            if v is None or len(blk["succ"]) < 2:
+                continue
+            dead = blk["succ"][1] if v else blk["succ"][0]
+            if dead >= 0:
+                res.add((b, dead))
+        self._infeas = res
+        return res
 
     def loops(self):
         """Natural loops: {header block: set of body blocks (incl. header)}."""
